@@ -132,6 +132,9 @@ def histories(draw, max_steps=12):
                 w = max(b0, 1.0) * 3e-10
                 t["entries"] = t["entries"] + [[b0, b0 + w, "a"], [b0 + w, b0 + 2 * w, "a"]]
                 t["maxT"] = max(t["maxT"], b0 + 2 * w)
+    if draw(st.integers(0, 9)) == 0:
+        # a tier that is over at time 0 (one click at 0): appending to it shifts the other tier by nothing
+        init.append({"type": "point", "name": "z0", "entries": [[0.0, "start"]], "minT": 0.0, "maxT": 0.0, "style": style})
     n = draw(st.integers(1, max_steps))
     return {"style": style, "init": init, "ops": [draw(op_strategy(style)) for _ in range(n)]}
 
